@@ -160,7 +160,8 @@ func genHexField(t *rapid.T, n int, label string) any {
 
 func genNumField(t *rapid.T, label string) any {
 	if rapid.IntRange(0, 14).Draw(t, label+"ok") > 0 {
-		return rapid.SampledFrom([]any{"30000000", "0", "1", "1000", "18446744073709551615", "9223372036854775807"}).Draw(t, label+"v")
+		return rapid.SampledFrom([]any{"30000000", "0", "1", "1000", "2147483647", "2147483648", "4294967295", "4294967296", "9223372036854775807",
+			"9223372036854775808", "18446744073709551614", "18446744073709551615"}).Draw(t, label+"v")
 	}
 	return rapid.SampledFrom([]any{
 		"30000000", "0", "1", "", "-1", "18446744073709551615", "18446744073709551616", "abc", nil, 5, "1000",
@@ -170,7 +171,7 @@ func genNumField(t *rapid.T, label string) any {
 
 func genGrace(t *rapid.T, label string) any {
 	if rapid.IntRange(0, 14).Draw(t, label+"ok") > 0 {
-		return rapid.SampledFrom([]any{"0", "1", "1000", "9223372036854", "9223372036854775807"}).Draw(t, label+"v")
+		return rapid.SampledFrom([]any{"0", "1", "1000", "2147483647", "2147483648", "4294967296", "9223372036854", "9223372036855", "9223372036854775", "9223372036854775807"}).Draw(t, label+"v")
 	}
 	return genNumField(t, label)
 }
